@@ -282,7 +282,7 @@ Qed.
 
 Definition skip_id (k : prog) : Prop := forall s, atomicity s <> NonAtomic -> runs k s (ROk s).
 Definition fails_clean (x : prog) : Prop :=
-  forall s s' a, wf s -> Inv (stack s) a -> limit s = None -> runs x s (RErr s') ->
+  forall s s' a, wf s -> Inv (stack s) a -> limit s = None -> atomicity s <> NonAtomic -> runs x s (RErr s') ->
     pos s' = pos s /\ length (queue s') = length (queue s) /\ cache (stack s') = cache (stack s).
 
 (* a skip that is the identity can be added on either side of a program *)
@@ -332,7 +332,7 @@ Proof.
   - destruct (srel_clear_r _ _ RX) as (tc & Ec & Rc). rewrite Ec. cbn. eauto.
   - pose proof (runs_post _ _ _ _ W Ia HX) as PX. cbn in PX, PX'.
     destruct PX as (FX & Ws' & a' & Ia' & Sa'), PX' as (_ & _ & b' & Ib' & Sb').
-    destruct (Hx _ _ _ W Ia L HX) as (Cp & Cq & Cs).
+    destruct (Hx _ _ _ W Ia L HA HX) as (Cp & Cq & Cs).
     destruct RX as (st' & -> & C' & _). destruct R as (st & -> & C & _). fields_in Ib'. fields_in Ib.
     unfold restore_st. fields. destruct (inv_restore Ib') as (str & Er & Ir). rewrite Er. fields.
     eexists; split; [reflexivity|].
@@ -462,5 +462,294 @@ Proof.
   cbn [cho_chain]. eapply eqv_trans; [apply IHr2|]. rewrite v_cho. apply (eqv_of_peq A), else_assoc.
 Qed.
 End Flat.
+
+(* ================= the same laws read from right to left ================= *)
+Lemma then_assoc_rev p q r0 : peq (PAndThen p (PAndThen q r0)) (PAndThen (PAndThen p q) r0).
+Proof.
+  intros s r H. destruct (runs_then_inv _ _ _ _ H) as [(s1 & Hp & H2)|[Hp Hn]].
+  - destruct (runs_then_inv _ _ _ _ H2) as [(s2 & Hq & Hr)|[Hq Hn]].
+    + eapply runs_then_ok; [|exact Hr]. eapply runs_then_ok; eauto.
+    + apply runs_then_stop; auto. eapply runs_then_ok; eauto.
+  - apply runs_then_stop; auto. apply runs_then_stop; auto.
+Qed.
+Lemma else_assoc_rev p q r0 : peq (POrElse p (POrElse q r0)) (POrElse (POrElse p q) r0).
+Proof.
+  intros s r H. destruct (runs_else_inv _ _ _ _ H) as [(s1 & Hp & H2)|[Hp Hn]].
+  - destruct (runs_else_inv _ _ _ _ H2) as [(s2 & Hq & Hr)|[Hq Hn]].
+    + eapply runs_else_err; [|exact Hr]. eapply runs_else_err; eauto.
+    + apply runs_else_stop; auto. eapply runs_else_err; eauto.
+  - apply runs_else_stop; auto. apply runs_else_stop; auto.
+Qed.
+Lemma assoc4_rev X a k b : peq (PAndThen X (PAndThen (PAndThen a k) b)) (PAndThen (PAndThen (PAndThen X a) k) b).
+Proof.
+  intros s r H. destruct (runs_then_inv _ _ _ _ H) as [(s1 & HX & H2)|[HX Hn]].
+  - destruct (runs_then_inv _ _ _ _ H2) as [(s3 & H3 & Hb)|[H3 Hn]].
+    + destruct (runs_then_inv _ _ _ _ H3) as [(s2 & Ha & Hk)|[Ha Hn]]; [|exfalso; eapply Hn; eauto].
+      eapply runs_then_ok; [|exact Hb]. eapply runs_then_ok; [|exact Hk]. eapply runs_then_ok; eauto.
+    + destruct (runs_then_inv _ _ _ _ H3) as [(s2 & Ha & Hk)|[Ha _]].
+      * apply runs_then_stop; auto. eapply runs_then_ok; [|exact Hk]. eapply runs_then_ok; eauto.
+      * apply runs_then_stop; auto. apply runs_then_stop; auto. eapply runs_then_ok; eauto.
+  - apply runs_then_stop; auto. apply runs_then_stop; auto. apply runs_then_stop; auto.
+Qed.
+Lemma peq_then_l a a' b : peq a a' -> peq (PAndThen a b) (PAndThen a' b).
+Proof.
+  intros H s r Hr. destruct (runs_then_inv _ _ _ _ Hr) as [(s1 & Ha & Hb)|[Ha Hn]].
+  - eapply runs_then_ok; [apply H; exact Ha|exact Hb].
+  - apply runs_then_stop; auto.
+Qed.
+Lemma peq_else_l a a' b : peq a a' -> peq (POrElse a b) (POrElse a' b).
+Proof.
+  intros H s r Hr. destruct (runs_else_inv _ _ _ _ Hr) as [(s1 & Ha & Hb)|[Ha Hn]].
+  - eapply runs_else_err; [apply H; exact Ha|exact Hb].
+  - apply runs_else_stop; auto.
+Qed.
+Lemma peq_trans a b c : peq a b -> peq b c -> peq a c.
+Proof. intros H1 H2 s r Hr. auto. Qed.
+Lemma peq_refl a : peq a a.
+Proof. intros s r Hr. exact Hr. Qed.
+
+Lemma srel_checkpoint_l s t : srel s t -> srel (checkpoint s) t.
+Proof.
+  intros (st & -> & C & W & [a Ia] & Ib & L). exists st. unfold checkpoint. fields.
+  repeat split; auto. exists (ssnapshot a). now apply inv_snapshot.
+Qed.
+Lemma srel_clear_l s t : srel s t -> exists s', checkpoint_ok s = Some s' /\ srel s' t.
+Proof.
+  intros (st & -> & C & W & [a Ia] & Ib & L). unfold checkpoint_ok.
+  destruct (inv_clear Ia) as (stc & Ec & Ic). rewrite Ec. fields. eexists; split; [reflexivity|].
+  exists st. repeat split; fields; auto; [|exists (sclear a); exact Ic].
+  rewrite (inv_cache' _ _ Ic). cbn. rewrite <- (inv_cache' _ _ Ia). exact C.
+Qed.
+
+(* sequence(X ; sequence(Y)) ~ sequence(X ; Y) *)
+Lemma seq_unabsorb A X Y : eqv A (PSequence (PAndThen X (PSequence Y))) (PSequence (PAndThen X Y)).
+Proof.
+  intros s t r R HA H.
+  pose proof (r_wf _ _ R) as W. pose proof (srel_wft _ _ R) as Wt.
+  destruct (r_is _ _ R) as [a Ia]. destruct (r_it _ _ R) as [b Ib].
+  pose proof (r_lim _ _ R) as L. pose proof (srel_limt _ _ R) as L2.
+  destruct (runs_seq_inv _ _ _ L H) as (rb & Hb & ->).
+  pose proof (srel_checkpoint _ _ R) as R1.
+  assert (A1 : amode A (checkpoint s)) by (eapply amode_frame; [exact HA|reflexivity]).
+  assert (W1 : wf (checkpoint s)) by exact W. assert (W2 : wf (checkpoint t)) by exact Wt.
+  pose proof (inv_snapshot Ia) as I1. pose proof (inv_snapshot Ib) as I2.
+  change (snapshot (stack s)) with (stack (checkpoint s)) in I1. change (snapshot (stack t)) with (stack (checkpoint t)) in I2.
+  assert (Cab : cur b = cur a).
+  { destruct R as (st & -> & C & _). fields_in Ib. rewrite <- (inv_cache' _ _ Ia), <- (inv_cache' _ _ Ib). exact C. }
+  destruct (runs_then_inv _ _ _ _ Hb) as [(s1 & HX & HS)|[HX Hn]].
+  - destruct (eqv_refl A X _ _ _ R1 A1 HX) as (rx' & HX' & RX).
+    destruct rx' as [t1| | |]; cbn in RX; try contradiction.
+    pose proof (runs_post _ _ _ _ W1 I1 HX) as PX. pose proof (runs_post _ _ _ _ W2 I2 HX') as PX'.
+    cbn in PX, PX'. destruct PX as (FX & Ws1 & a1 & Ia1 & Sa1), PX' as (FX' & Wt1 & b1 & Ib1 & Sb1).
+    assert (A2 : amode A s1) by (eapply frame_amode; eauto).
+    pose proof (r_lim _ _ RX) as L1.
+    destruct (runs_seq_inv _ _ _ L1 HS) as (ry & HY & ->).
+    destruct (eqv_refl A Y _ _ _ (srel_checkpoint_l _ _ RX) ltac:(eapply amode_frame; [exact A2|reflexivity]) HY) as (ry' & HY' & RY).
+    pose proof (runs_then_ok _ _ _ _ _ HX' HY') as T2.
+    pose proof (runs_seq _ _ _ L2 T2) as T3.
+    eexists; split; [exact T3|].
+    eapply (rrel_of_core s a t b); [exact L|eapply runs_post; eauto|eapply runs_post; eauto|].
+    assert (Wc : wf (checkpoint s1)) by exact Ws1.
+    pose proof (inv_snapshot Ia1) as Ic. change (snapshot (stack s1)) with (stack (checkpoint s1)) in Ic.
+    pose proof (runs_post _ _ _ _ Wc Ic HY) as PY.
+    pose proof (runs_post _ _ _ _ Wt1 Ib1 HY') as PY'.
+    destruct ry as [sy|sy|k|], ry' as [ty|ty|k'|]; cbn in RY; try contradiction; cbn [seq_post].
+    + destruct (srel_clear_l _ _ RY) as (sy1 & Ec & Rc). rewrite Ec. cbn [lift seq_post].
+      apply clear_core; [left; reflexivity|exact Rc].
+    + cbn in PY, PY'. destruct PY as (FY & _ & a2 & Ia2 & Sa2), PY' as (_ & _ & b2 & Ib2 & Sb2).
+      destruct RY as (sty & -> & Cy & _). fields_in Ib2.
+      unfold restore_st at 1. fields. destruct (inv_restore Ia2) as (str & Er & Ir). rewrite Er. cbn [option_map lift seq_post]. fields.
+      destruct R as (st0 & -> & C0 & _). destruct RX as (st1 & -> & C1 & _). fields.
+      rewrite vtruncate_vtruncate by (exact (frame_qlen _ _ FX)).
+      change (set_queue (set_pos (sw sty sy) ?p2) ?q2)
+        with (sw sty (set_queue (set_pos (set_stack (set_queue (set_pos sy (pos s1)) (vtruncate (length (queue s1)) (queue sy))) str) p2) q2)).
+      eapply (restore_core RErr (or_intror (fun x => eq_refl))) with (a := srestore a2) (b := b2); fields; auto.
+      * unfold srestore. rewrite Sa2. cbn. rewrite Sa1. cbn. reflexivity.
+      * rewrite Sb2, Sb1. cbn. rewrite Cab. reflexivity.
+    + exact RY.
+  - destruct (eqv_refl A X _ _ _ R1 A1 HX) as (rx' & HX' & RX).
+    assert (Hn' : forall t1, rx' <> ROk t1) by (intros t1 ->; destruct rb; cbn in RX; try contradiction; eapply Hn; eauto).
+    pose proof (runs_then_stop _ Y _ _ HX' Hn') as T2.
+    pose proof (runs_seq _ _ _ L2 T2) as T3.
+    eexists; split; [exact T3|].
+    pose proof (runs_seq _ _ _ L HX) as S3.
+    destruct (eqv_refl A (PSequence X) _ _ _ R HA S3) as (r' & Hr' & Rr).
+    rewrite (runs_det _ _ _ _ (runs_seq _ _ _ L2 HX') Hr'). exact Rr.
+Qed.
+
+Lemma runs_opt_inv p s r : limit s = None -> runs (POptional p) s r -> exists rb, runs p s rb /\ r = opt_post rb.
+Proof.
+  intros L [N [f Ef]]. destruct f as [|f]; [cbn in Ef; congruence|]. cbn [exec] in Ef. rewrite (inc_call_none s L) in Ef.
+  exists (exec cfg E f p s). split; [split; eauto|].
+  - intros X. rewrite X in Ef. congruence.
+  - rewrite <- Ef. destruct (exec cfg E f p s); reflexivity.
+Qed.
+Lemma runs_rep_inv p s r : limit s = None -> runs (PRepeat p) s r -> runs (PRepeatLoop p) s r.
+Proof.
+  intros L [N [f Ef]]. destruct f as [|f]; [cbn in Ef; congruence|]. cbn [exec] in Ef. rewrite (inc_call_none s L) in Ef.
+  split; eauto.
+Qed.
+
+Section RepAtomicRev.
+Variable x k : prog.
+Hypothesis Hk : skip_id k.
+Hypothesis Hx : fails_clean x.
+Let body' := PSequence (PAndThen k x).
+
+(* one iteration of the nest on the left for one iteration of the plain loop on the right *)
+Lemma iter_left s t rb : srel s t -> atomicity s <> NonAtomic -> runs body' s rb ->
+  exists rx, runs x t rx /\
+    match rb with
+    | ROk s1 => exists t1, rx = ROk t1 /\ srel s1 t1
+    | RErr sr => exists t', rx = RErr t' /\ srel sr t'
+    | RPanic kk => rx = RPanic kk
+    | ROutOfFuel => False
+    end.
+Proof.
+  intros R HA HB.
+  pose proof (r_wf _ _ R) as W. destruct (r_is _ _ R) as [a Ia]. pose proof (r_lim _ _ R) as L.
+  destruct (runs_seq_inv _ _ _ L HB) as (rq & Hq & ->).
+  assert (Ac : atomicity (checkpoint s) <> NonAtomic) by exact HA.
+  pose proof (Hk _ Ac) as K1.
+  assert (HX : runs x (checkpoint s) rq).
+  { destruct (runs_then_inv _ _ _ _ Hq) as [(s2 & Hk2 & Hx2)|[Hk2 Hn]].
+    - pose proof (runs_det _ _ _ _ K1 Hk2) as Eq. injection Eq as <-. exact Hx2.
+    - exfalso. pose proof (runs_det _ _ _ _ K1 Hk2) as Eq. eapply Hn; eauto. }
+  destruct (eqv_refl true x _ _ _ (srel_checkpoint_l _ _ R) (fun _ => Ac) HX) as (rx & HX' & RX).
+  exists rx. split; [exact HX'|].
+  assert (Wc : wf (checkpoint s)) by exact W.
+  pose proof (inv_snapshot Ia) as Ic. change (snapshot (stack s)) with (stack (checkpoint s)) in Ic.
+  pose proof (runs_post _ _ _ _ Wc Ic HX) as PX.
+  destruct rq as [s1|s'|kk|], rx as [t1|t'|kk'|]; cbn in RX; try contradiction; cbn [seq_post].
+  - destruct (srel_clear_l _ _ RX) as (sc & Ec & Rc). rewrite Ec. cbn. eauto.
+  - cbn in PX. destruct PX as (FX & Ws' & a' & Ia' & Sa').
+    assert (Lc : limit (checkpoint s) = None) by exact L.
+    destruct (Hx _ _ _ Wc Ic Lc Ac HX) as (Cp & Cq & Cs). cbn [checkpoint pos queue stack set_stack] in Cp, Cq.
+    unfold restore_st. fields. destruct (inv_restore Ia') as (str & Er & Ir). rewrite Er. cbn [option_map lift].
+    eexists; split; [reflexivity|].
+    rewrite <- Cp, <- Cq, (vtruncate_all (queue s') _ eq_refl), set_pos_id, set_queue_id.
+    destruct RX as (st' & -> & C' & _ & _ & Ib' & _).
+    exists st'. repeat split; fields; auto; [|exists (srestore a'); exact Ir|rewrite (f_lim _ _ FX); exact L].
+    rewrite C'. rewrite (inv_cache' _ _ Ir). unfold srestore. rewrite Sa'. cbn.
+    rewrite Cs. cbn. apply (inv_cache' _ _ Ia).
+  - subst kk'. reflexivity.
+Qed.
+
+Lemma loop_left : forall f s t, srel s t -> atomicity s <> NonAtomic ->
+  exec cfg E f (PRepeatLoop body') s <> ROutOfFuel ->
+  exists r', runs (PRepeatLoop x) t r' /\ rrel (exec cfg E f (PRepeatLoop body') s) r'.
+Proof.
+  induction f as [|f IH]; intros s t R HA Hne; [exfalso; apply Hne; reflexivity|].
+  cbn [exec] in Hne |- *.
+  destruct (exec cfg E f body' s) as [s1|s'|kk|] eqn:Ex.
+  - assert (HB : runs body' s (ROk s1)) by (split; [discriminate|eauto]).
+    destruct (iter_left _ _ _ R HA HB) as (rx & Hx' & t1 & -> & R1).
+    assert (A1 : atomicity s1 <> NonAtomic).
+    { destruct (r_is _ _ R) as [a Ia]. pose proof (runs_post _ _ _ _ (r_wf _ _ R) Ia HB) as P. cbn in P. destruct P as (F & _).
+      rewrite (f_at _ _ F). exact HA. }
+    destruct (IH _ _ R1 A1 Hne) as (r' & Hr' & Rr). exists r'. split; auto. eapply runs_loop_ok; eauto.
+  - assert (HB : runs body' s (RErr s')) by (split; [discriminate|eauto]).
+    destruct (iter_left _ _ _ R HA HB) as (rx & Hx' & t' & -> & R1).
+    exists (ROk t'). split; [now apply runs_loop_err|exact R1].
+  - assert (HB : runs body' s (RPanic kk)) by (split; [discriminate|eauto]).
+    destruct (iter_left _ _ _ R HA HB) as (rx & Hx' & ->).
+    exists (RPanic kk). split; [now apply runs_loop_panic|reflexivity].
+  - congruence.
+Qed.
+
+Lemma loop_never_err p : forall f s s', exec cfg E f (PRepeatLoop p) s <> RErr s'.
+Proof.
+  induction f as [|f IH]; intros s s'; [discriminate|]. cbn [exec]. destruct (exec cfg E f p s); try discriminate. apply IH.
+Qed.
+
+(* in atomic mode:  sequence(optional(x ; repeat(sequence(skip ; x)))) ~ repeat(x) *)
+Lemma rep_atomic_rev : eqv true (PSequence (POptional (PAndThen x (PRepeat body')))) (PRepeat x).
+Proof.
+  intros s t r R HA0 H. assert (HA : atomicity s <> NonAtomic) by (apply HA0; reflexivity).
+  pose proof (r_wf _ _ R) as W. destruct (r_is _ _ R) as [a Ia].
+  pose proof (r_lim _ _ R) as L. pose proof (srel_limt _ _ R) as L2.
+  destruct (runs_seq_inv _ _ _ L H) as (ro & Ho & ->).
+  assert (Lc : limit (checkpoint s) = None) by exact L.
+  destruct (runs_opt_inv _ _ _ Lc Ho) as (rq & Hq & ->).
+  pose proof (srel_checkpoint_l _ _ R) as Rc.
+  assert (Ac : atomicity (checkpoint s) <> NonAtomic) by exact HA.
+  destruct (runs_then_inv _ _ _ _ Hq) as [(s1 & HX & HL)|[HX Hn]].
+  - destruct (eqv_refl true x _ _ _ Rc (fun _ => Ac) HX) as (rx' & HX' & RX).
+    destruct rx' as [t1| | |]; cbn in RX; try contradiction.
+    assert (Wc : wf (checkpoint s)) by exact W.
+    pose proof (inv_snapshot Ia) as Ic. change (snapshot (stack s)) with (stack (checkpoint s)) in Ic.
+    assert (A1 : atomicity s1 <> NonAtomic).
+    { pose proof (runs_post _ _ _ _ Wc Ic HX) as P. cbn in P. destruct P as (F & _). rewrite (f_at _ _ F). exact Ac. }
+    pose proof (runs_rep_inv _ _ _ (r_lim _ _ RX) HL) as [N [f Ef]].
+    assert (Hne : exec cfg E f (PRepeatLoop body') s1 <> ROutOfFuel) by congruence.
+    destruct (loop_left f _ _ RX A1 Hne) as (r' & Hr' & Rr). rewrite Ef in Rr.
+    pose proof (runs_loop_ok _ _ _ _ HX' Hr') as T1.
+    pose proof (runs_rep _ _ _ L2 T1) as T2.
+    exists r'. split; [exact T2|].
+    destruct rq as [sz|sz|kz|], r' as [tz|tz|kz'|]; cbn in Rr; try contradiction; cbn [opt_post seq_post].
+    + destruct (srel_clear_l _ _ Rr) as (sc & Ec & Rc'). rewrite Ec. exact Rc'.
+    + exfalso. eapply loop_never_err; eauto.
+    + exact Rr.
+  - destruct (eqv_refl true x _ _ _ Rc (fun _ => Ac) HX) as (rx' & HX' & RX).
+    destruct rq as [sz|s'|kk|]; [exfalso; eapply Hn; eauto| | |destruct HX as [N _]; congruence].
+    + destruct rx' as [|t'| |]; cbn in RX; try contradiction.
+      pose proof (runs_loop_err _ _ _ HX') as T1. pose proof (runs_rep _ _ _ L2 T1) as T2.
+      exists (ROk t'). split; [exact T2|]. cbn [opt_post seq_post].
+      destruct (srel_clear_l _ _ RX) as (sc & Ec & Rc'). rewrite Ec. exact Rc'.
+    + destruct rx' as [| |kk'|]; cbn in RX; try contradiction. subst kk'.
+      pose proof (runs_loop_panic _ _ _ HX') as T1. pose proof (runs_rep _ _ _ L2 T1) as T2.
+      exists (RPanic kk). split; [exact T2|reflexivity].
+Qed.
+
+End RepAtomicRev.
+
+(* ---------- the nested shapes of the VM, built from g, against the flattened chains of g ---------- *)
+Lemma eqv_then A p q p' q' : eqv A p p' -> eqv A q q' -> eqv A (PAndThen p q) (PAndThen p' q').
+Proof. intros H1 H2. apply sim_eqv. intros m. apply cong_then'; now apply eqv_sim. Qed.
+
+Section FlatRev.
+Variable g : oexpr -> prog.
+Variable pre : prog -> prog.                      (* acc |-> acc.and_then(skip), or acc itself *)
+Definition lkp (acc x : prog) : prog := PAndThen (pre acc) x.
+Hypothesis pre_push : forall X y z, peq (PAndThen X (lkp y z)) (lkp (PAndThen X y) z).
+Hypothesis pre_cong : forall a a' x, peq a a' -> peq (lkp a x) (lkp a' x).
+Hypothesis g_seq : forall l r, g (OSeq l r) = PSequence (seq_chain g lkp (g l) r).
+Hypothesis g_cho : forall l r, g (OChoice l r) = cho_chain g POrElse (g l) r.
+
+Lemma chain_cong : forall b a a', peq a a' -> peq (seq_chain g lkp a b) (seq_chain g lkp a' b).
+Proof. induction b; intros a a' H; cbn [seq_chain]; try (apply pre_cong; exact H). apply IHb2. apply pre_cong. exact H. Qed.
+Lemma chain_push : forall b X y, peq (PAndThen X (seq_chain g lkp y b)) (seq_chain g lkp (PAndThen X y) b).
+Proof.
+  induction b; intros X y; cbn [seq_chain]; try apply pre_push.
+  eapply peq_trans; [apply IHb2|]. apply chain_cong. apply pre_push.
+Qed.
+Lemma cchain_cong : forall b a a', peq a a' -> peq (cho_chain g POrElse a b) (cho_chain g POrElse a' b).
+Proof. induction b; intros a a' H; cbn [cho_chain]; try (apply peq_else_l; exact H). apply IHb2. apply peq_else_l. exact H. Qed.
+Lemma cchain_push : forall b X y, peq (POrElse X (cho_chain g POrElse y b)) (cho_chain g POrElse (POrElse X y) b).
+Proof.
+  induction b; intros X y; cbn [cho_chain]; try apply else_assoc_rev.
+  eapply peq_trans; [apply IHb2|]. apply cchain_cong. apply else_assoc_rev.
+Qed.
+
+Fixpoint nest (e : oexpr) : prog := match e with OSeq l r => PSequence (lkp (g l) (nest r)) | _ => g e end.
+Fixpoint nestc (e : oexpr) : prog := match e with OChoice l r => POrElse (g l) (nestc r) | _ => g e end.
+
+Lemma nest_flat A : forall e, eqv A (nest e) (g e).
+Proof.
+  induction e; try apply eqv_refl. cbn [nest].
+  eapply eqv_trans; [apply eqv_seq, eqv_then; [apply eqv_refl|apply IHe2]|].
+  rewrite g_seq. destruct e2; try apply eqv_refl.
+  (* the tail is itself a sequence: absorb it, then push the head into its chain *)
+  rewrite g_seq. unfold lkp at 1. eapply eqv_trans; [apply seq_unabsorb|].
+  cbn [seq_chain]. apply eqv_seq, (eqv_of_peq A). apply chain_push.
+Qed.
+Lemma nestc_flat A : forall e, eqv A (nestc e) (g e).
+Proof.
+  induction e; try apply eqv_refl. cbn [nestc].
+  eapply eqv_trans; [apply eqv_else; [apply eqv_refl|apply IHe2]|].
+  rewrite g_cho. destruct e2; try apply eqv_refl.
+  rewrite g_cho. cbn [cho_chain]. apply (eqv_of_peq A). apply cchain_push.
+Qed.
+End FlatRev.
 
 End Laws.
